@@ -114,6 +114,11 @@ func (r *Run) RunChildren(spec ChildSpec) {
 	if spec.Timeout == 0 {
 		spec.Timeout = 20 * time.Minute
 	}
+	if r.Quick() && spec.Timeout > 4*time.Minute {
+		// quick slices take seconds; a watchdog that fires without the case
+		// reproducing alone is inconclusive, never a violation
+		spec.Timeout = 4 * time.Minute
+	}
 	// More slices than processes so one slow slice does not serialise the run.
 	slices := spec.Procs * 4
 	if uint64(slices) > total {
@@ -154,6 +159,11 @@ func (r *Run) distinctSet() map[uint64]struct{} {
 // runSlice runs [a,b) in one child, isolating a killing case if the child dies.
 func (r *Run) runSlice(spec ChildSpec, a, b uint64, id int) {
 	for attempt := 0; a < b && attempt < 40; attempt++ {
+		if atomic.LoadInt64(&r.crashes) >= 6 {
+			// the run already fails; pinning down more crashing or hanging cases only costs watchdogs
+			r.Add("slices_skipped_after_crash_limit", 1)
+			return
+		}
 		base := filepath.Join(r.Scratch, fmt.Sprintf("%s-%s-%d-%d", spec.Monitor, spec.Stream, id, attempt))
 		res := r.execChild(spec, a, b, base, false)
 		r.merge(spec, base)
@@ -169,7 +179,13 @@ func (r *Run) runSlice(spec ChildSpec, a, b uint64, id int) {
 		if end > b {
 			end = b
 		}
-		res2 := r.execChild(spec, cp, end, tb, true)
+		// the interval holds at most 4096 cases and the single case one: short
+		// watchdogs, or a hang defect costs three full watchdogs per slice
+		short := spec
+		if short.Timeout > 3*time.Minute {
+			short.Timeout = 3 * time.Minute
+		}
+		res2 := r.execChild(short, cp, end, tb, true)
 		if res2.ok {
 			// did not reproduce in isolation of the interval
 			r.merge(spec, tb)
@@ -183,7 +199,7 @@ func (r *Run) runSlice(spec ChildSpec, a, b uint64, id int) {
 		killer := readProgress(tb, cp)
 		// Confirm alone.
 		sb := base + "-single"
-		res3 := r.execChild(spec, killer, killer+1, sb, true)
+		res3 := r.execChild(short, killer, killer+1, sb, true)
 		r.merge(spec, sb)
 		if res3.ok {
 			r.Inconclusive("child %s/%s died at case %d (%s) but the case alone passes", spec.Monitor, spec.Stream, killer, res2.how)
@@ -205,6 +221,7 @@ func (r *Run) runSlice(spec ChildSpec, a, b uint64, id int) {
 				What:   fmt.Sprintf("child process %s on case %d of stream %s: %s", res3.how, killer, spec.Stream, top),
 				Detail: map[string]any{"monitor": spec.Monitor, "extra": spec.Extra, "stderr_tail": tail([]byte(res3.stderr), 3000), "case": readCase(sb)}}
 			r.Violate(v)
+			atomic.AddInt64(&r.crashes, 1)
 		}
 		cleanupChildFiles(base)
 		cleanupChildFiles(tb)
